@@ -1,52 +1,27 @@
-import NimaVerif.Model.AttrPath
 import NimaVerif.Model.SExp
+import NimaVerif.Drv.Names
 /-!
 Line-protocol driver: one request per line on stdin, one reply per line on stdout.
+Each topic has its own handler module `NimaVerif/Drv/<Topic>.lean` exporting
+`handle : SExp → Option SExp` (`none`: not my request). Register it in `handlers` below.
+Only import-free modules (Model/, Gen/, Drv/) may be imported here, so that the exe links.
 -/
 open Nima
 
-def handle (req : SExp) : SExp :=
-  match req with
-  | .list [.atom "npath", .atom anchor, .atom h] =>
-    match decText h with
-    | none => .list [.atom "bad-arg"]
-    | some p =>
-      match parseNPath (anchor == "t") p with
-      | .ok segs => .list (.atom "ok" :: segs.map fun s => .list [sText s.name, sBool s.quoted])
-      | .error e => sErr e
-  | .list [.atom "fmtname", .atom anchor, .atom h, .atom q] =>
-    match decText h with
-    | none => .list [.atom "bad-arg"]
-    | some n => .list [.atom "ok", sText (formatAttrName (anchor == "t") ⟨n, q == "t"⟩)]
-  | .list [.atom "escape", .atom h, .atom i] =>
-    match decText h with
-    | none => .list [.atom "bad-arg"]
-    | some n => .list [.atom "ok", sText (escapeNix (i == "t") n)]
-  | .list [.atom "split", .atom h] =>
-    match decText h with
-    | none => .list [.atom "bad-arg"]
-    | some n =>
-      match splitAttrpath n with
-      | .ok segs => .list (.atom "ok" :: segs.map sText)
-      | .error e => sErr e
-  | .list [.atom "decode", .atom h] =>
-    match decText h with
-    | none => .list [.atom "bad-arg"]
-    | some n =>
-      match nixDecodeName n with
-      | some t => .list [.atom "some", sText t]
-      | none => .list [.atom "none"]
-  | .list [.atom "renderseg", .atom h] =>
-    match decText h with
-    | none => .list [.atom "bad-arg"]
-    | some n => .list [.atom "ok", sText (renderSeg n)]
-  | _ => .list [.atom "bad-op"]
+def handlers : List (SExp → Option SExp) := [
+  Nima.Drv.Names.handle
+]
+
+def dispatch (req : SExp) : SExp :=
+  match handlers.findSome? (fun h => h req) with
+  | some r => r
+  | none => .list [.atom "bad-op"]
 
 partial def loop (hin : IO.FS.Stream) (hout : IO.FS.Stream) : IO Unit := do
   let line ← hin.getLine
   if line.isEmpty then return ()
   let reply := match SExp.parse line with
-    | some r => handle r
+    | some r => dispatch r
     | none => .list [.atom "bad-syntax"]
   hout.putStrLn reply.toStr
   loop hin hout
